@@ -7,7 +7,7 @@ THOROUGH_SEEDS = 30   # the thorough tier repeats its staged workload over this 
 RULE = ('bases 0, +-1, +-2, single- and multi-digit, negative, exact powers of two incl. 2^k with k >= 256; exponents 0..=300 '
         'exhaustively through all six primitive exponent types and the four val/ref forms (small exponents for narrow types), '
         '2^k, 2^k+-1, random bit patterns up to 2^12 with small bases; BigUint exponents incl. the u64/u128 conversion edges with '
-        'base 0 or +-1; 0^0 = 1 in every form; sign rule for BigInt. A cell is (base family, exponent bit pattern class, type, kind)')
+        'base 0 or +-1; structured 2..40-digit bases built from a carry-prone digit pool with exponents 2..16; 0^0 = 1 in every form; sign rule for BigInt. A cell is (base family, exponent bit pattern class, type, kind)')
 ASSUMPTIONS = ['CPython ** is the reference']
 
 
@@ -68,6 +68,24 @@ def workload(tier, seed, scale=1.0):
                 cmds.append(cmd_pw('C12', ty, b, e, 'I', cell=('wide-exp', ty, b, e.bit_length(), e & 0xffffffff == 0)))
                 if b >= 0:
                     cmds.append(cmd_pw('C12', ty, b, e, 'U', cell=('wide-exp', ty, b, 'U', e.bit_length(), e & 0xffffffff == 0)))
+    # structured multi-digit bases (digits drawn from a pool of carry-prone values) with small exponents: a dedicated
+    # squaring / power routine has its own carry chains, which random digits never stress
+    pool = [0, 1, 2, 3, M64, M64 - 1, M64 - 2, 1 << 63, (1 << 63) + 1, (1 << 63) - 1, 1 << 32, (1 << 32) - 1, (1 << 32) + 1, 0xffffffff00000000,
+            0x5555555555555555, 0xaaaaaaaaaaaaaaaa, 0xfffffffefffffffe]
+    combos = [(a, b) for a in pool for b in pool if b]
+    for nd in (3, 4, 4, 5, 6, 8, 12, 16, 24, 32, 33, 40):
+        for _ in range((60 if quick else 200) if nd <= 5 else 12):
+            ds = [rnd.choice(pool) for _ in range(nd)]
+            ds[-1] = ds[-1] or 1
+            combos.append(tuple(ds))
+    for ds in combos:
+        if scale < 1.0 and rnd.random() > scale:
+            continue
+        b = sum(d << (64 * i) for i, d in enumerate(ds))
+        e = rnd.choice((2, 2, 2, 3, 4, 5, 6, 7, 9, 16))
+        ty = rnd.choice(UTYPES)
+        kind = rnd.choice('UI')
+        cmds.append(cmd_pw('C12', ty, -b if (kind == 'I' and rnd.random() < 0.5) else b, e, kind, cell=('structured', len(ds), e, ty, kind)))
     # BigUint exponents
     for e in [0, 1, 2, 3, 10, 64, 65, 300, M64, 1 << 64, (1 << 64) + 1, (1 << 128) - 1, 1 << 128, (1 << 128) + 1, (1 << 200) + 1, 1 << 200]:
         for b in (0, 1, -1):
